@@ -609,6 +609,61 @@ def k10(rep):
                       "unrelated use of the macro is reported as circular")
 
 
+def k12(rep):
+    """The form checker validates every component of a node in a loop and reports the bad ones; the phases after it
+    (scobindAssign: `default: bugBadCase`) rely on *all* components having been looked at.  A loop that reports must therefore not
+    be left early on the accepting side: a break or return out of it is only reached after an error was reported in that
+    iteration."""
+    f = common.extract("abcheck.c", all_trees=True)
+    n = 0
+    for name, fn in sorted(f.funcs.items()):
+        if "body" not in fn or not fn.get("file", "").endswith("abcheck.c"):
+            continue
+        par = None
+        for lp in walk(fn["body"]):
+            if lp["k"] not in ("ForStmt", "WhileStmt"):
+                continue
+            body = lp["c"][-1]
+            if body is None or not any(c.get("callee") in ("comsgError", "comsgNError", "comsgFatal") for c in calls(body)):
+                continue
+            n += 1
+            if par is None:
+                par = common.parents(fn["body"])
+            bad = None
+            for x in walk(body):
+                if x["k"] not in ("BreakStmt", "ReturnStmt"):
+                    continue
+                # the construct the break leaves
+                cur, leaves_loop, reported = x, x["k"] == "ReturnStmt", False
+                chain = []
+                while cur is not lp and cur["id"] in par:
+                    p_ = par[cur["id"]]
+                    if x["k"] == "BreakStmt" and not chain and p_["k"] in ("SwitchStmt", "ForStmt", "WhileStmt", "DoStmt") and p_ is not lp:
+                        chain.append("inner")
+                    if p_["k"] == "CompoundStmt":
+                        for st in p_["c"]:
+                            if st is cur:
+                                break
+                            if st is not None and any(c.get("callee") in ("comsgError", "comsgNError", "comsgFatal") for c in calls(st)) \
+                                    and st["k"] not in ("IfStmt", "SwitchStmt"):
+                                reported = True
+                    cur = p_
+                if x["k"] == "BreakStmt" and chain:
+                    continue                      # leaves an inner switch or loop, not this loop
+                if not reported:
+                    bad = x
+            key = "checker-loop-complete:%s@%d" % (name, lp["l"])
+            if bad is None:
+                rep.ok("K12", key, nontrivial=False)
+            else:
+                rep.violation("K12", "checker-loop-complete:%s" % name, "abcheck.c:%d (%s)" % (bad["l"], name),
+                              "the loop that validates the components of the node is left by a %s that no error report precedes: the "
+                              "components after an acceptable one are never checked, and a malformed one reaches a later phase that "
+                              "treats it as impossible (bugBadCase: 'Compiler bug', abort) instead of getting a diagnostic"
+                              % ("break" if bad["k"] == "BreakStmt" else "return"))
+    rep.floor("reporting loops in the form checker", n, 8)
+
+
 K6_UNITS = ["include.c", "scan.c", "token.c", "syscmd.c", "linear.c", "parseby.c", "abnorm.c", "macex.c", "abcheck.c"]
 
 
@@ -773,6 +828,7 @@ def run(tier, only=None):
     k5(rep)
     k9(rep)
     k10(rep)
+    k12(rep)
     from . import variadic
     _gen = set(["genc.c", "ccode.c"] + [u for u in common.compiler_units() if u.startswith(("java/", "of_")) or u in ("usedef.c", "flog.c", "dflow.c", "optfoam.c", "inlutil.c", "loops.c")])
     variadic.report(rep, "K11", [u for u in common.compiler_units() if u not in _gen], floor=1700, what="in the front end, FOAM generator and support units")
